@@ -222,6 +222,7 @@ def delimiter_lines_ok(octets, bounds):
 def run(ctx):
     # generated boundaries of multiparts made on different threads (they end up nested into one another) all differ
     thr = run_impl(["mime.threads\t8\t6", "mime.threads\t2\t1", "mime.threads\t16\t3"])
+    maf = run_impl(["mime.mutate_after_format"])[0]
     thr_bad = [t for t in thr if len(t.split("\t")) != 2 or t.split("\t")[0] != t.split("\t")[1]]
     rng = ctx.rng
     trees = []
@@ -336,6 +337,9 @@ def run(ctx):
             got = body
         if got != want:
             obad.append((i, "%s: leaf content decodes (%s) to %r..., built from %r..." % (path, c, (got or b"")[:40], want[:40])))
+    ctx.cov["oracle"]["formatting_depends_on_current_state_only"] = {"result": maf[:40]}
+    if maf != "ok":
+        ctx.violation({"kind": "oracle", "what": "headers changed after a first formatting: " + (unhx(maf.split("\t")[1]).decode("utf-8", "replace") if maf.startswith("bad\t") else maf)[:600]})
     ctx.cov["oracle"]["generated_boundaries_differ_across_threads"] = {"runs": thr, "failures": len(thr_bad)}
     if thr_bad:
         ctx.violation({"kind": "oracle", "what": "multiparts created on different threads were given the same generated boundary (created / distinct: %s)" % thr_bad[0].replace("\t", " / ")})
